@@ -1,6 +1,6 @@
 SPECIFICATION TSpec
 CONSTANTS
-  Flavour = "ip"
+  Flavour = "coap"
   MaxV = 6
   InitVers = {1}
   InitCaches = {0}
@@ -12,7 +12,7 @@ CONSTANTS
   ReplyKinds = {"ok", "garbage"}
   UserOps = {"list", "pop0", "pop1", "restore"}
   MonotoneDesc = FALSE
-  Deviations = {"live_iter"}
+  Deviations = {}
 CONSTRAINT TConstraint
 INVARIANT LabelNeverNewerThanData
 INVARIANT SeenFinalHoldsFinal
